@@ -99,7 +99,7 @@ def gen_random(rng):
 
 
 def exhaustive_cases(tier):
-    depth = 3 if tier == "quick" else 5
+    depth = 3
     w0 = chain(["do", ["log", 1000], ["end"]], guarded(["eventwait", 0], 0), guarded(["sleep0"], 1))
     w1 = chain(["do", ["log", 1001], ["end"]], guarded(["awaitfut", 0], 10), guarded(["sleep0"], 11))
     w2 = chain(["do", ["log", 1002], ["end"]], guarded(["sleep0"], 20), guarded(["awaitfut", 0], 21))
@@ -118,7 +118,7 @@ def exhaustive_cases(tier):
 
 def gen(rng, tier):
     yield from exhaustive_cases(tier)
-    for _ in range(300 if tier == "quick" else 8000):
+    for _ in range(300 if tier == "quick" else 3000):
         yield gen_random(rng)
 
 
